@@ -12,6 +12,7 @@ import (
 	"reflect"
 	"runtime"
 	"runtime/debug"
+	"sort"
 	"strconv"
 	"strings"
 	"sync"
@@ -84,22 +85,29 @@ type Rewrite struct {
 
 // C18Case describes one ez invocation completely.
 type C18Case struct {
-	Type      string     `json:"type"`           // flat | nest | plain | split
-	Format    string     `json:"format"`         // json | yaml | toml | cue
-	Entry     string     `json:"entry"`          // typed | ext | factory | factoryp
-	Ext       string     `json:"ext"`            // file extension of the config file
-	Enc       string     `json:"enc,omitempty"`  // plain only: FileFieldNameEncoder "", snake, kebab
-	Watch     bool       `json:"watch"`          // Params.WatchConfigFile
-	FlagMode  string     `json:"flag_mode"`      // explicit (Params.FlagSource on a fresh FlagSet) | cmdline (flag.CommandLine + os.Args)
-	FlagCfg   bool       `json:"flag_cfg"`       // cmdline: pass DefaultFlagNameConfig() explicitly instead of nil
-	Callbacks bool       `json:"callbacks"`      // register OnNewConfig / OnWatchedError
-	FileState string     `json:"file_state"`     // valid | missing | malformed | badext
-	Malformed int        `json:"malformed_kind"` // 0 syntax, 1 wrong type
-	Leaves    []LeafCase `json:"leaves"`         // in leaf-table order
-	ArgRot    int        `json:"arg_rot"`        // rotation of the argv flag order
-	Rewrites  []Rewrite  `json:"rewrites,omitempty"`
-	Layout    string     `json:"layout,omitempty"`    // "" direct; "k8s": path -> ..data/<base>, ..data -> ..ts-N (Kubernetes AtomicWriter); watch on, valid file only
-	NoBubble  bool       `json:"no_bubble,omitempty"` // watch-off: run in real time instead of a synctest bubble
+	Type      string `json:"type"`                  // flat | nest | plain | split
+	Format    string `json:"format"`                // json | yaml | toml | cue
+	Entry     string `json:"entry"`                 // typed | ext | factory | factoryp
+	Ext       string `json:"ext"`                   // file extension of the config file
+	Enc       string `json:"enc,omitempty"`         // plain and embed only: FileFieldNameEncoder "", snake, kebab
+	Flatten   bool   `json:"flatten,omitempty"`     // Params.FlattenAnonymousFields
+	NoSetList bool   `json:"no_set_list,omitempty"` // Params.DisableAutoSetToSlice: sets are written as maps of empty tables, not as lists
+	// ScribbleBefore r > 0: just before file version r is installed the
+	// harness overwrites, in place, what the reference-typed leaves of ITS OWN
+	// defaults struct point to (map entries, slice elements, pointees); the
+	// expected stack keeps using the defaults as they were passed.
+	ScribbleBefore int        `json:"scribble_before,omitempty"`
+	Watch          bool       `json:"watch"`          // Params.WatchConfigFile
+	FlagMode       string     `json:"flag_mode"`      // explicit (Params.FlagSource on a fresh FlagSet) | cmdline (flag.CommandLine + os.Args)
+	FlagCfg        bool       `json:"flag_cfg"`       // cmdline: pass DefaultFlagNameConfig() explicitly instead of nil
+	Callbacks      bool       `json:"callbacks"`      // register OnNewConfig / OnWatchedError
+	FileState      string     `json:"file_state"`     // valid | missing | malformed | badext
+	Malformed      int        `json:"malformed_kind"` // 0 syntax, 1 wrong type
+	Leaves         []LeafCase `json:"leaves"`         // in leaf-table order
+	ArgRot         int        `json:"arg_rot"`        // rotation of the argv flag order
+	Rewrites       []Rewrite  `json:"rewrites,omitempty"`
+	Layout         string     `json:"layout,omitempty"`    // "" direct; "k8s": path -> ..data/<base>, ..data -> ..ts-N (Kubernetes AtomicWriter); watch on, valid file only
+	NoBubble       bool       `json:"no_bubble,omitempty"` // watch-off: run in real time instead of a synctest bubble
 }
 
 var extsFor = map[string][]string{
@@ -124,9 +132,11 @@ func genC18(watch bool) func(t *rapid.T) C18Case {
 		} else {
 			c.Ext = rapid.SampledFrom(append([]string{".conf", "", ".txt"}, extsFor[c.Format]...)).Draw(t, "ext")
 		}
-		if c.Type == "plain" {
+		if c.Type == "plain" || c.Type == "embed" {
 			c.Enc = rapid.SampledFrom([]string{"", "snake", "kebab"}).Draw(t, "enc")
 		}
+		c.Flatten = rapid.Bool().Draw(t, "flatten")
+		c.NoSetList = rapid.IntRange(0, 2).Draw(t, "no_set_list") == 2
 		if rapid.IntRange(0, 3).Draw(t, "flagmode") == 0 {
 			c.FlagMode = "cmdline"
 			c.FlagCfg = rapid.Bool().Draw(t, "flagcfg")
@@ -378,6 +388,9 @@ func genC18(watch bool) func(t *rapid.T) C18Case {
 			if n > 0 && rapid.IntRange(0, 5).Draw(t, "layout") == 5 {
 				c.Layout = "k8s"
 			}
+			if n > 0 && rapid.Bool().Draw(t, "scribble") {
+				c.ScribbleBefore = rapid.IntRange(1, n).Draw(t, "scribble_before")
+			}
 		}
 		return c
 	}
@@ -463,7 +476,7 @@ func validateCase(c C18Case, td *typeDef) string {
 	if c.FlagMode != "explicit" && c.FlagMode != "cmdline" {
 		return "flag mode"
 	}
-	if c.Enc != "" && (c.Type != "plain" || (c.Enc != "snake" && c.Enc != "kebab")) {
+	if c.Enc != "" && ((c.Type != "plain" && c.Type != "embed") || (c.Enc != "snake" && c.Enc != "kebab")) {
 		return "enc"
 	}
 	for i, lc := range c.Leaves {
@@ -488,6 +501,9 @@ func validateCase(c C18Case, td *typeDef) string {
 	}
 	if len(c.Rewrites) > 3 {
 		return "too many rewrites"
+	}
+	if c.ScribbleBefore < 0 || c.ScribbleBefore > len(c.Rewrites) {
+		return "scribble point"
 	}
 	for _, rw := range c.Rewrites {
 		if len(rw.Leaves) != len(td.leaves) {
@@ -536,6 +552,8 @@ func dispatch(c C18Case, td *typeDef, bubble bool) vrt.Verdict {
 		return execCase[PlainCfg](c, td, bubble, (*PlainCfg).rule)
 	case "split":
 		return execCase[SplitCfg](c, td, bubble, (*SplitCfg).rule)
+	case "embed":
+		return execCase[EmbedCfg](c, td, bubble, (*EmbedCfg).rule)
 	}
 	return vrt.Discardf("unknown type %q", c.Type)
 }
@@ -677,12 +695,22 @@ func execCase[T any, TP ez.ConfigWithConfigPath[T]](c C18Case, td *typeDef, bubb
 		return cfg
 	}
 
+	putLeaf := func(root *node, l *leafDef, alias bool, v value) {
+		key := l.fileKey(c.Format, c.Enc, c.Flatten, alias)
+		if l.kind == kSet && c.NoSetList {
+			// DisableAutoSetToSlice: the file holds the map itself
+			for _, e := range v.elems {
+				root.put(append(append([]string(nil), key...), e), "")
+			}
+			return
+		}
+		root.put(key, l.lit(v))
+	}
 	fileContent := func(r int) string {
 		root := &node{}
 		for i := range td.leaves {
 			if in, gen, bad, alias := fileLeaf(i, r); in {
-				l := &td.leaves[i]
-				root.put(l.fileKey(c.Format, c.Enc, alias), l.lit(val(i, gen, bad)))
+				putLeaf(root, &td.leaves[i], alias, val(i, gen, bad))
 			}
 		}
 		return emit(c.Format, root)
@@ -692,7 +720,7 @@ func execCase[T any, TP ez.ConfigWithConfigPath[T]](c C18Case, td *typeDef, bubb
 		for i := range td.leaves {
 			l := &td.leaves[i]
 			if l.path == pNone {
-				root.put(l.fileKey(c.Format, c.Enc, false), l.lit(val(i, gDecoy, false)))
+				putLeaf(root, l, false, val(i, gDecoy, false))
 			}
 		}
 		return emit(c.Format, root)
@@ -736,7 +764,7 @@ func execCase[T any, TP ez.ConfigWithConfigPath[T]](c C18Case, td *typeDef, bubb
 			var intKey []string
 			for i := range td.leaves {
 				if td.leaves[i].isInt() {
-					intKey = td.leaves[i].fileKey(c.Format, c.Enc, false)
+					intKey = td.leaves[i].fileKey(c.Format, c.Enc, c.Flatten, false)
 					break
 				}
 			}
@@ -853,7 +881,7 @@ func execCase[T any, TP ez.ConfigWithConfigPath[T]](c C18Case, td *typeDef, bubb
 	defaults := build(-1, false)
 	defaultsBefore := cp(defaults)
 
-	params := ez.Params[T]{WatchConfigFile: c.Watch}
+	params := ez.Params[T]{WatchConfigFile: c.Watch, FlattenAnonymousFields: c.Flatten, DisableAutoSetToSlice: c.NoSetList}
 	switch c.Enc {
 	case "snake":
 		params.FileFieldNameEncoder = caseconversion.EncodeLowerSnakeCase
@@ -906,7 +934,7 @@ func execCase[T any, TP ez.ConfigWithConfigPath[T]](c C18Case, td *typeDef, bubb
 		case "json":
 			return &djson.Decoder{}
 		case "yaml":
-			return &yaml.Decoder{}
+			return &yaml.Decoder{FlattenAnonymous: c.Flatten} // (a caller's factory honours its own option)
 		case "toml":
 			return &toml.Decoder{}
 		default:
@@ -933,7 +961,11 @@ func execCase[T any, TP ez.ConfigWithConfigPath[T]](c C18Case, td *typeDef, bubb
 	eq := func(a, b *T) bool { return reflect.DeepEqual(a, b) }
 
 	labels := []string{"type=" + c.Type, "format=" + c.Format, "entry=" + c.Entry, "flags=" + c.FlagMode,
-		fmt.Sprintf("watch=%v", c.Watch), fmt.Sprintf("callbacks=%v", c.Callbacks)}
+		fmt.Sprintf("watch=%v", c.Watch), fmt.Sprintf("callbacks=%v", c.Callbacks),
+		fmt.Sprintf("flatten-anonymous=%v", c.Flatten), fmt.Sprintf("disable-auto-set-to-slice=%v", c.NoSetList), "file-key-encoder=" + map[string]string{"": "nil", "snake": "snake", "kebab": "kebab"}[c.Enc]}
+	if c.Type == "embed" {
+		labels = append(labels, fmt.Sprintf("embed:%s/%s/flatten=%v/enc=%s", c.Entry, c.Format, c.Flatten, map[string]string{"": "nil", "snake": "snake", "kebab": "kebab"}[c.Enc]))
+	}
 	if noPath {
 		labels = append(labels, "file=nopath")
 	} else {
@@ -1184,9 +1216,9 @@ func execCase[T any, TP ez.ConfigWithConfigPath[T]](c C18Case, td *typeDef, bubb
 			}
 			var v vrt.Verdict
 			if eq(x, inter) {
-				v = vrt.KeyedViolationf("verify-intermediate", "%s: Verify call #%d ran on the file-less intermediate config %+v; the full stack is %s", what, k, *x, describeAll(legit))
+				v = vrt.KeyedViolationf("verify-intermediate", "%s: Verify call #%d ran on the file-less intermediate config %v; the full stack is %s", what, k, deref(x), describeAll(legit))
 			} else {
-				v = vrt.KeyedViolationf("verify-foreign", "%s: Verify call #%d ran on %+v, which is neither the full stack nor any later full stack %s (intermediate %+v)", what, k, *x, describeAll(legit), *inter)
+				v = vrt.KeyedViolationf("verify-foreign", "%s: Verify call #%d ran on %v, which is neither the full stack nor any later full stack %s (intermediate %v)\n%s", what, k, deref(x), describeAll(legit), deref(inter), leafDiff(td, x, legit[len(legit)-1]))
 			}
 			v = v.With(nonTrivial, labels...)
 			return &v
@@ -1337,6 +1369,27 @@ func execCase[T any, TP ez.ConfigWithConfigPath[T]](c C18Case, td *typeDef, bubb
 						labels = append(labels, "rewrite-omits-key-under-pointer-default:falls-back-to-default")
 					}
 				}
+			}
+		}
+		if r == c.ScribbleBefore {
+			// the caller goes on using its own struct: everything its
+			// reference-typed leaves point to is overwritten in place.  The
+			// library took its own copy of the defaults when it was called.
+			n, observable := scribbleDefaults(td, c, defaults, func(i int) bool {
+				in, _, _, _ := fileLeaf(i, r)
+				return !in && c.Leaves[i].Layers&(bEnv|bFlag) == 0
+			})
+			if n > 0 {
+				labels = append(labels, "caller-scribbled-own-defaults")
+			}
+			if observable {
+				labels = append(labels, "caller-scribbled-own-defaults:a-scribbled-leaf-falls-back-to-the-default")
+			}
+			if got := d.View(); !eq(got, cur) {
+				return vrt.KeyedViolationf("defaults-shared-with-caller", "the caller modified its own defaults struct in place after the entry point returned and the view changed from %+v to %+v", deref(cur), deref(got)).With(nonTrivial, labels...)
+			}
+			if v := checkHanded("after the caller modified its own defaults struct"); v != nil {
+				return *v
 			}
 		}
 		nBefore := len(recd.snapshot())
@@ -1541,6 +1594,83 @@ func execCase[T any, TP ez.ConfigWithConfigPath[T]](c C18Case, td *typeDef, bubb
 	return vrt.OK(nonTrivial, labels...)
 }
 
+// scribbleDefaults overwrites in place what the reference-typed leaves of the
+// caller's defaults struct point to: map entries, slice elements and the
+// fields of pointees.  Maps and slices that the flag layer sets are left
+// alone: the flag source binds such flags to the fields of the struct it was
+// given, so it legitimately shares them with the caller.  It returns how many
+// leaves were scribbled and whether one of them satisfies watch (the caller
+// passes "the default wins this leaf in the next file version").
+func scribbleDefaults(td *typeDef, c C18Case, defaults any, watch func(i int) bool) (n int, observable bool) {
+	const junk = "caller-wrote-this-later"
+	for i := range td.leaves {
+		l := &td.leaves[i]
+		if l.path != pNone {
+			continue
+		}
+		v := reflect.ValueOf(defaults).Elem()
+		viaPtr := false
+		ok := true
+		for _, f := range strings.Split(l.name, ".") {
+			if v.Kind() == reflect.Ptr {
+				if v.IsNil() {
+					ok = false
+					break
+				}
+				v, viaPtr = v.Elem(), true
+			}
+			v = v.FieldByName(f)
+		}
+		if !ok {
+			continue
+		}
+		done := false
+		switch v.Kind() {
+		case reflect.Map:
+			if c.Leaves[i].Layers&bFlag != 0 || v.IsNil() {
+				continue
+			}
+			keys := v.MapKeys()
+			sort.Slice(keys, func(a, b int) bool { return keys[a].String() < keys[b].String() })
+			if len(keys) > 0 {
+				v.SetMapIndex(keys[0], reflect.Value{}) // delete
+			}
+			v.SetMapIndex(reflect.ValueOf(junk), reflect.ValueOf(struct{}{}))
+			done = true
+		case reflect.Slice:
+			if c.Leaves[i].Layers&bFlag != 0 || v.Len() == 0 {
+				continue
+			}
+			for k := 0; k < v.Len(); k++ {
+				v.Index(k).SetString(junk)
+			}
+			done = true
+		default:
+			if !viaPtr {
+				continue // a plain field of the struct itself: not "in place"
+			}
+			switch v.Kind() {
+			case reflect.String:
+				v.SetString(junk)
+			case reflect.Int, reflect.Int64:
+				v.SetInt(770077 + int64(i))
+			case reflect.Bool:
+				v.SetBool(!v.Bool())
+			case reflect.Float64:
+				v.SetFloat(770077.25)
+			default:
+				continue
+			}
+			done = true
+		}
+		if done {
+			n++
+			observable = observable || watch(i)
+		}
+	}
+	return n, observable
+}
+
 func viewOf[T any](d *dials.Dials[T]) *T {
 	if d == nil {
 		return nil
@@ -1563,7 +1693,7 @@ func describeAll[T any](xs []*T) string {
 		if i > 0 {
 			b.WriteString(" | ")
 		}
-		fmt.Fprintf(&b, "%+v", *x)
+		fmt.Fprintf(&b, "%v", deref(x))
 	}
 	return b.String()
 }
@@ -1770,11 +1900,13 @@ func allParked3() bool {
 // ----------------------------------------------------------------------------
 // Test functions.
 
-const c18Rule = "static ez config types (flat with a bool; nested with aliases and a pointer-to-struct field; untagged with FileFieldNameEncoder and a pointer-to-struct field; path computed from two leaves), each with ConfigPath and a recording, content-dependent Verify; " +
+const c18Rule = "static ez config types (flat with a bool; nested with aliases and a pointer-to-struct field; untagged with FileFieldNameEncoder and a pointer-to-struct field; path computed from two leaves; one with an embedded untagged struct whose leaves file, env and flag set), each with ConfigPath and a recording, content-dependent Verify; " +
 	"the defaults hold non-nil pointers to structs (leaves below them settable from file, env and flag) and, when the default layer sets them, non-empty maps and slices. " +
 	"Per leaf rapid draws a subset of {default, file, env, flag}; the value of a layer is derived from (leaf seed, layer) so the four are pairwise different " +
 	"(one leaf in five instead lets its top layer - flag, env or file - repeat exactly the value the defaults struct holds, generated or zero, while a lower non-default layer differs: an explicit value equal to the default must still win; one bool leaf, whose flag is also spelled bare -n / -n=false). " +
-	"Format json/yaml/toml/cue through the typed entry points, the extension-dispatching one and the two decoder-factory ones; the path comes from default/env/flag (lower layers and the file itself name decoy files that exist with other content); " +
+	"Format json/yaml/toml/cue through the named per-format entry points, FileExtensionDecoderConfigEnvFlag with every extension it knows (.json .yaml .yml .toml .cue, also upper case), ConfigFileEnvFlag with a factory and ConfigFileEnvFlagDecoderFactoryParams, " +
+	"crossed with Params.FlattenAnonymousFields on/off, FileFieldNameEncoder nil / snake / kebab (untagged and embedded types) and DisableAutoSetToSlice on/off (sets then written as maps); the file layout of embedded leaves per format and option is written down in the harness as read off the unmodified tree " +
+	"(JSON and Cue promote them, yaml.v2 nests them under the lower-cased type name unless FlattenAnonymousFields promotes them, go-toml nests them under the type name, with an encoder every format nests them under the encoded type name except YAML with FlattenAnonymousFields); the path comes from default/env/flag (lower layers and the file itself name decoy files that exist with other content); " +
 	"file valid / missing / malformed / unknown extension / no path at all; flags through Params.FlagSource on a fresh FlagSet (3 in 4) or a fresh flag.CommandLine + os.Args (restored). " +
 	"Oracle by construction: first View() = flag > env > file > default per leaf; the decoder factory saw the path of defaults+env+flags; every Verify receiver deep-equals a full stack (never the file-less intermediate, none at all when the file cannot be read); " +
 	"a rejected full stack gives an error that errors.Is the verifier's and no Dials; after return Events() is empty and neither global callback ran (watch off: inside a synctest bubble after synctest.Wait; watch on: after all library goroutines parked); " +
@@ -1782,6 +1914,8 @@ const c18Rule = "static ez config types (flat with a bool; nested with aliases a
 	"non-trivial = some leaf set by >= 3 layers AND the intermediate is rejected by Verify while the full stack is accepted; distinct = distinct cases"
 
 var c18Assumptions = []string{
+	"a caller may keep using its own defaults struct after the entry point returned (dials.Config deep-copies it); maps and slices that a flag is bound to are shared with the flag source by its design (flag.Var on the struct's field) and are therefore not modified by the harness",
+	"the embedded struct's leaves carry single-word dials tags, so a FileFieldNameEncoder leaves their keys unchanged and only the key of the embedded struct itself depends on it",
 	"layer values are simple tokens (letters, digits), positive/negative integers, millisecond durations, x.5 floats and two-element string sets, so no decoder/parse corner case interferes",
 	"file keys, environment names and flag names are written down in the harness (dials tags; UPPER_SNAKE of the flattened path; kebab-joined path), not read from the library",
 	"missing/malformed file: ez documents only that SetSource 'will fail if the file source fails'; the check requires a non-nil error and a nil Dials, not a particular error",
@@ -1807,7 +1941,8 @@ func TestC18Watch(t *testing.T) {
 	vrt.Check(t, vrt.Prop[C18Case]{
 		ID: "C18", Name: "watch",
 		Rule: "watch on, 0-3 later versions of the file (each with its own leaf subset and fresh values, so later versions OMIT keys earlier versions set and the leaf must fall back to env / flag / default, also below a non-nil default pointer; some rejected by Verify), " +
-			"put in place by temp + rename-over, by unlink - (wait until the watcher has noticed: inotify queue drained, library goroutines parked) - temp + rename, by unlink - wait - create + write, by truncate in place - wait - write, or, in the Kubernetes AtomicWriter layout (path -> ..data/<base>, ..data -> ..ts-N), by a ..data symlink swap with or without removal of the old directory; " +
+			"at a drawn point before one of these versions the harness, acting as the caller, overwrites in place everything the reference-typed leaves of ITS OWN defaults struct point to (map entries, slice elements, pointees; not the maps/slices a flag is bound to) - the view and all later stacks must keep using the defaults as they were passed; " +
+			"versions are put in place by temp + rename-over, by unlink - (wait until the watcher has noticed: inotify queue drained, library goroutines parked) - temp + rename, by unlink - wait - create + write, by truncate in place - wait - write, or, in the Kubernetes AtomicWriter layout (path -> ..data/<base>, ..data -> ..ts-N), by a ..data symlink swap with or without removal of the old directory; " +
 			"while the file is missing the view must stay at the last good config and Verify must not run (the file source reports nothing for a missing file); Verify receivers seen while a file is rewritten in place (truncate / create + write: an empty or partial file is legitimately readable) are exempt from the membership rule but the final view is not; after each the view must converge to flag > env > NEW file > default " +
 			"(or stay, when Verify rejects the new stack), every Verify receiver / Events value / callback argument must be a full stack of some file version; convergence is polled, a 10 s stall is a violation only if three goroutine dumps 300 ms apart show every library goroutine parked, otherwise the case is discarded as inconclusive. " + c18Rule,
 		Assumptions: c18Assumptions,
